@@ -4,6 +4,7 @@ from __future__ import annotations
 
 from abc import ABC
 from contextlib import suppress
+from copy import copy
 from functools import partial
 from typing import TYPE_CHECKING
 from typing import Awaitable
@@ -91,8 +92,14 @@ class CachingLoaderMixin(ABC, _CachingLoaderProtocol):
             self.cache[cache_key] = template
             return template
 
-        cached_template.global_data = globals or {}
-        return cached_template
+        if cached_template.global_data == (globals or {}):
+            return cached_template
+
+        # Callers share the parsed template, not their globals. An earlier caller
+        # might still hold the template it was given.
+        template = copy(cached_template)
+        template.global_data = globals or {}
+        return template
 
     async def _check_cache_async(
         self,
@@ -115,8 +122,14 @@ class CachingLoaderMixin(ABC, _CachingLoaderProtocol):
             self.cache[cache_key] = template
             return template
 
-        cached_template.global_data = globals or {}
-        return cached_template
+        if cached_template.global_data == (globals or {}):
+            return cached_template
+
+        # Callers share the parsed template, not their globals. An earlier caller
+        # might still hold the template it was given.
+        template = copy(cached_template)
+        template.global_data = globals or {}
+        return template
 
     def load(
         self,
